@@ -6,10 +6,17 @@ utils.py; the theorems of SnowProofs/Props/C20.lean are rebuilt against it.
 Correspondence
   * `utils.vapour_pressure_liquid/solid`, `utils.vapour_flux` on random (T, p, kappa, …)
     against the generated code run at Float in the driver (libm vs numpy, rtol 1e-9);
-  * the window logic (hand model SnowModel/EvapWindow.lean) against REAL 1D Snowing runs,
-    VISF and shelf, with random vacuum windows: step by step for the top node of the cooling
-    stage (window flag, q_e, updated top temperature), and run against run (prefix before the
-    window, whole run when the window never opens).
+  * the window logic against REAL paired Snowing runs, VISF and shelf, with random vacuum windows
+    (1D; one small 2D pair in the quick tier): the WHOLE VISF run (statistics, time, shelf, every
+    temp / ice row of both stages) against the executable run model (Snow.run1DOld / S2D.run) fed
+    with the CONFIGURED window and VISF constants; the hand model SnowModel/EvapWindow.lean step by
+    step on the top node of every cooling row.
+Effects, not calls (predicates on the real output alone): the heat flux actually applied at the top
+node is inferred from every pair of consecutive published rows (both stages, calibrated on the shelf
+run where it must vanish) - zero outside the configured window, -N_w*dHe with the right sign inside;
+rows before the window identical to the shelf run, whole run identical when the window never opens.
+A run, constructor, accessor or helper that raises is an observation and then a Failure; rows that
+cannot be read step by step (recording stride / step size changed) raise BrokenObservation.
 Monitored (evaluated at Float on a 0.01 K grid, no theorem): `triple_point_coincide`,
 `p_ice_le_p_liq_below` (the grid monotonicity of both curves is kept as a test of the proved clauses).
 """
@@ -25,6 +32,8 @@ import yaml
 
 import core
 import translate
+import snowingutil as su
+import snowing2dutil as s2
 from core import Failure, f2b, b2f, close
 
 ID = "C20"
@@ -66,7 +75,7 @@ THEOREMS = [
     dict(name="Snow.C20.evap_cools_iff", clause="inside the window q_e <= 0 iff p_vap >= p_vac (T_l = T_v > 0)", strength="full"),
     dict(name="monitored:triple_point_coincide", clause="the two curves coincide at the triple point (273.16 K): NO theorem, evaluated at Float on every run (relative gap <= 1e-6)", strength="monitored"),
     dict(name="monitored:p_ice_le_p_liq_below", clause="p_ice <= p_liq below the triple point: NO theorem, evaluated on the 0.01 K grid 123-273.15 K on every run", strength="monitored"),
-    dict(name="monitored:visf_eq_shelf_2D_and_solidification_prefix", clause="2D runs and the solidification-stage prefix of 1D runs before the window: NO run-level theorem (2D model has only the q_e link), real 1D run pairs are compared on every run", strength="monitored"),
+    dict(name="monitored:visf_eq_shelf_2D_and_solidification_prefix", clause="2D runs and the solidification-stage prefix of 1D runs before the window: NO run-level theorem (2D model has only the q_e link and the q_e statement ties); real 1D pairs and one small real 2D pair (six in the thorough tier) are run end to end and compared on every run (rows before the window, inferred top flux at every step, whole run against the 2D model)", strength="monitored"),
     dict(name="Snow.C20.nonvacuous", clause="hypotheses are satisfiable (default VISF parameters)", strength="nonvacuity"),
 ]
 TRUSTED = [
@@ -84,19 +93,25 @@ ASSUMPTIONS = [
     "(run1DOn) when the window is met at none of the sampled step times dt*i / dt*iEnd + dt*i (so also for a window "
     "beyond the process or between two samples) - visf_run1D_eq_shelf_sampled, _window_beyond, _empty_window; the "
     "prefix before a window that does open is proved for the cooling loop only (visf_cool1D_eq_shelf_before_window); "
-    "the solidification-stage prefix and the 2D runs have no run-level theorem (monitored: real 1D pairs are compared; "
-    "2D runs are not executed by this check) - for 2D only the q_e link and the q_e call-site ties are proved",
+    "the solidification-stage prefix and the 2D runs have no run-level theorem (monitored: real 1D pairs and a small "
+    "real 2D pair are run end to end and compared) - for 2D the q_e link and the ties of the whole "
+    "`if window: q_e = ... else: q_e = 0` statements are proved",
     "the abstract-loop theorems (runStage, body an arbitrary function of q_e) are kept as lemmas",
     "the flux laws are proved for Gen.FU.N_w with ANY positive value of pi; the run models' flux functions are that "
     "definition at pi = Evap.piDouble (0D/1D) resp. the input pi (2D), for every numeric instance (GenTie/Evap)",
-    "real paired runs are compared only when BOTH runs complete (nucleation and 90 % solidification within t_tot): a "
-    "run that raises publishes no arrays, so the run-level comparisons say nothing about such runs",
+    "the programmes of the paired runs nucleate and solidify within t_tot on the unchanged code: a run, constructor "
+    "or accessor that raises is reported as a failure (clause unexpected_raise), never skipped",
+    "the inferred top flux (inverse of the top-node update, snowing2dutil._top_flux) needs every step recorded; this is "
+    "verified on the rows (spacing = the loop's step recomputed from the constants) and on the shelf run (inferred "
+    "flux zero); if either fails the check reports a broken observation instead of skipping the clause",
     "real runs use a taller vial (height 0.03-0.04 m) and fast programs so that every step is recorded",
 ]
 RULE = ("(a) batches of random (T, p_vac, p_vap, kappa, m, k_B, T_l, T_v) incl. T_l = T_v, p_vap = p_vac, kappa = 1; "
         "(b) the 0.01 K grid 123-332 K for the monitored numeric clauses; (c) paired real 1D Snowing runs VISF vs "
         "shelf with random vacuum windows (before nucleation, straddling it, during solidification, beyond t_tot, "
-        "empty); a run case is non-trivial when both runs complete")
+        "empty, start 0), second runs of a re-pointed object, objects built after another object; (d) a small 2D "
+        "pair (height 0.01 m, diameter 0.04 m, ~5000 steps) with the window inside the cooling stage or straddling "
+        "nucleation; a run case is non-trivial when both runs complete (a run that raises is a failure)")
 EXPLANATION = ("Lean theorems over the reals about the generated utils formulas and the hand window model + "
                "differential check against utils.* and real Snowing runs; triple point coincidence and p_ice <= p_liq "
                "below it are a monitored TEST on a grid, not a theorem")
@@ -105,8 +120,10 @@ LEVEL_TEXT = (
     "Lean 4 theorems (exact real arithmetic) about Lean definitions GENERATED from utils.py by harness/translate.py on "
     "every run (vapour_pressure_liquid, vapour_pressure_solid, vapour_flux) and about a hand-written model of the top "
     "boundary of the 1D loops; the generated text is rebuilt and the theorems re-checked on every run, the window "
-    "model is tied to /repo by a differential check against real paired 1D VISF/shelf runs (bit-for-bit on the top "
-    "node, step by step). Proved in full: ice curve strictly increasing on (0,400] K and liquid curve strictly "
+    "model is tied to /repo by a differential check against real paired VISF/shelf runs (1D: whole run against the "
+    "run model with the configured window and the top node step by step against the window model; one small 2D "
+    "pair end to end; the flux actually applied at the top node is inferred from the published rows at every step "
+    "of both stages). Proved in full: ice curve strictly increasing on (0,400] K and liquid curve strictly "
     "increasing on its whole validity range [123,332] K; flux zero at equilibrium, "
     "positive iff p_vap > p_vac, strictly increasing in p_vap, closed form and strict monotonicity in kappa on (0,1]; "
     "q_e is -N_w dHe exactly for VISF strictly inside the window and 0 otherwise; outside the window the VISF step of "
@@ -165,88 +182,87 @@ def _grid():
     return [123.0 + 0.01 * i for i in range(n + 1)]
 
 
+class BrokenObservation(Exception):
+    """the harness can no longer observe the real code the way the clause needs (row layout, step size, an
+    accessor): raised instead of skipping the clause, so that runcheck reports a broken correspondence"""
+
+
+def _cfg_1d(case, conf, win=None):
+    cfg = {"snowing_parameters": {"dimensionality": "spatial_1D", "configuration": conf},
+           "vial": {"geometry": {"height": case["height"]}},
+           "VISF": {"t_vac_start": (win or case)["t_start"], "t_vac_duration": (win or case)["t_dur"]}}
+    for kk in ("kappa", "p_vac"):
+        if (win or case).get(kk) is not None:
+            cfg["VISF"][kk] = (win or case)[kk]
+    return cfg
+
+
+def _tmp_yaml(cfg):
+    f = tempfile.NamedTemporaryFile("w", suffix=".yaml", delete=False)
+    yaml.safe_dump(cfg, f)
+    f.close()
+    return f.name
+
+
+def _published(S):
+    """what a finished run publishes through the PUBLIC accessors (numpy arrays; time in hours as published)"""
+    res = S.results
+    return {"stats": {k_: su._num(v) for k_, v in res.iloc[0].to_dict().items()},
+            "hours": np.asarray(S.time, float), "temp": np.asarray(S.temp, float),
+            "ice": np.asarray(S.iceMassFraction, float), "shelf": np.asarray(S.shelfTemp, float)}
+
+
 def _run_pair(case):
+    """the VISF run and the shelf run of one 1D case; every exception of the real code (constructor, run, accessors)
+    is an OBSERVATION: {"raise": class, "stage": "init" | "first-run" | "run" | "publish"}"""
     from ethz_snow.snowing import Snowing
     from ethz_snow.operatingConditions import OperatingConditions
 
     out = {}
+    k = {"int": 0, "ext": 0, "s0": case["s0"], "s_sigma_rel": 0}
     for conf in ("VISF", "shelf"):
-        cfg = {"snowing_parameters": {"dimensionality": "spatial_1D", "configuration": conf},
-               "vial": {"geometry": {"height": case["height"]}},
-               "VISF": {"t_vac_start": case["t_start"], "t_vac_duration": case["t_dur"]}}
-        if case.get("kappa") is not None:
-            cfg["VISF"]["kappa"] = case["kappa"]
-        if case.get("p_vac") is not None:
-            cfg["VISF"]["p_vac"] = case["p_vac"]
+        cfg = _cfg_1d(case, conf)
         if case.get("omit_visf"):
             del cfg["VISF"]          # the object relies on the packaged defaults for every VISF entry
-        if case.get("other") and conf == "VISF":
-            # ANOTHER object built earlier in the same process from a file overriding the VISF entries: it must not
-            # change what a later object gets as defaults
-            o = case["other"]
-            fo = tempfile.NamedTemporaryFile("w", suffix=".yaml", delete=False)
-            yaml.safe_dump({"snowing_parameters": {"dimensionality": "spatial_1D", "configuration": "VISF"},
-                            "VISF": dict(o)}, fo)
-            fo.close()
-            try:
-                Snowing(k={"int": 0, "ext": 0, "s0": 50, "s_sigma_rel": 0}, configPath=fo.name)
-            finally:
-                os.unlink(fo.name)
-        f = tempfile.NamedTemporaryFile("w", suffix=".yaml", delete=False)
-        yaml.safe_dump(cfg, f)
-        f.close()
-        f0 = None
+        files = []
+        rec = {"raise": None, "stage": None, "S": None}
+        out[conf] = rec
         try:
+            if case.get("other") and conf == "VISF":
+                # ANOTHER object built earlier in the same process from a file overriding the VISF entries: it must
+                # not change what a later object gets as defaults
+                files.append(_tmp_yaml({"snowing_parameters": {"dimensionality": "spatial_1D", "configuration": "VISF"},
+                                        "VISF": dict(case["other"])}))
+                rec["stage"] = "init-other"
+                Snowing(k={"int": 0, "ext": 0, "s0": 50, "s_sigma_rel": 0}, configPath=files[-1])
+            files.append(_tmp_yaml(cfg))
+            path = files[-1]
+            rec["stage"] = "init"
             op = OperatingConditions(t_tot=case["t_tot"], cooling={"rate": case["rate"], "start": 20, "end": -50})
             prev = case.get("prev") if conf == "VISF" else None
             if prev is None:
-                S = Snowing(k={"int": 0, "ext": 0, "s0": case["s0"], "s_sigma_rel": 0}, opcond=op, configPath=f.name)
+                S = Snowing(k=dict(k), opcond=op, configPath=path)
             else:
                 # object HISTORY: a first run with another VISF configuration (window / kappa / p_vac), then the
-                # configuration file is re-pointed on the USED object (`S.configPath = …`) and it runs again; the
+                # configuration file is re-pointed on the USED object (`S.configPath = ...`) and it runs again; the
                 # observed run is the second one, and it must be the run of the configuration it now shows
-                cfg0 = {"snowing_parameters": {"dimensionality": "spatial_1D", "configuration": "VISF"},
-                        "vial": {"geometry": {"height": case["height"]}},
-                        "VISF": {"t_vac_start": prev["t_start"], "t_vac_duration": prev["t_dur"]}}
-                for kk in ("kappa", "p_vac"):
-                    if prev.get(kk) is not None:
-                        cfg0["VISF"][kk] = prev[kk]
-                f0 = tempfile.NamedTemporaryFile("w", suffix=".yaml", delete=False)
-                yaml.safe_dump(cfg0, f0)
-                f0.close()
-                S = Snowing(k={"int": 0, "ext": 0, "s0": case["s0"], "s_sigma_rel": 0}, opcond=op, configPath=f0.name)
-                try:
-                    S.run()
-                    out["first_run"] = None
-                except Exception as e:
-                    out["first_run"] = core.exc_class(e)
-                S.configPath = f.name
-            # observe (from outside) which utils function the loop calls at which step
-            import ethz_snow.snowing as _sn
-            U = _sn.Utils
-            calls = []
-            saved = (U.vapour_pressure_liquid, U.vapour_pressure_solid, U.vapour_flux)
-
-            def _wrap(name, fn):
-                def g(*a, **k):
-                    calls.append(name)
-                    return fn(*a, **k)
-                return g
-            U.vapour_pressure_liquid = _wrap("L", saved[0])
-            U.vapour_pressure_solid = _wrap("S", saved[1])
-            U.vapour_flux = _wrap("F", saved[2])
-            try:
+                files.append(_tmp_yaml(_cfg_1d(case, "VISF", prev)))
+                S = Snowing(k=dict(k), opcond=op, configPath=files[-1])
+                rec["stage"] = "first-run"
                 S.run()
-                out[conf] = {"S": S, "raise": None}
-            except Exception as e:
-                out[conf] = {"S": S, "raise": core.exc_class(e)}
-            finally:
-                U.vapour_pressure_liquid, U.vapour_pressure_solid, U.vapour_flux = saved
-            out[conf]["calls"] = "".join(calls)
+                rec["stage"] = "reconfigure"
+                S.configPath = path
+            rec["S"] = S
+            rec["stage"] = "run"
+            S.run()
+            rec["stage"] = "publish"
+            rec.update(_published(S))
+            rec["stage"] = None
+        except Exception as e:
+            rec["raise"] = core.exc_class(e)
         finally:
-            os.unlink(f.name)
-            if f0 is not None:
-                os.unlink(f0.name)
+            for fn in files:
+                os.unlink(fn)
     return out
 
 
@@ -290,93 +306,119 @@ def _first_call(dim):
         os.unlink(f.name)
 
 
+def _inuc(run):
+    """index of the post-nucleation row = the first row with ice anywhere (len(rows) if none)"""
+    ice = run["ice"]
+    n = ice.shape[0]
+    has = np.nonzero(ice.reshape(n, -1).max(axis=1) > 0)[0]
+    return int(has[0]) if len(has) else n
+
+
+def _pair_summary(V, Sh):
+    """row-by-row comparison of a VISF run with the shelf run of the same programme"""
+    a_t, b_t = V["hours"] * 3600.0, Sh["hours"] * 3600.0
+    a, b = V["temp"], Sh["temp"]
+    n = min(len(a_t), len(b_t))
+    same = (a_t[:n] == b_t[:n]) & np.all(a[:n].reshape(n, -1) == b[:n].reshape(n, -1), axis=1) \
+        & np.all(V["ice"][:n].reshape(n, -1) == Sh["ice"][:n].reshape(n, -1), axis=1) \
+        & (V["shelf"][:n] == Sh["shelf"][:n])
+    bad = np.nonzero(~same)[0]
+    fd = int(bad[0]) if len(bad) else None
+    pair = {"len_visf": int(len(a_t)), "len_shelf": int(len(b_t)), "first_diff": fd,
+            "first_diff_time": (float(a_t[fd]) if fd is not None else None),
+            "first_diff_time_shelf": (float(b_t[fd]) if fd is not None else None),
+            "identical": bool(fd is None and len(a_t) == len(b_t)),
+            "ice_identical": bool(V["ice"].shape == Sh["ice"].shape and np.array_equal(V["ice"], Sh["ice"])),
+            "stats_identical": bool(V["stats"] == Sh["stats"])}
+    if fd is not None:
+        pair["diff_row_visf"] = [float(x) for x in a[fd].reshape(-1)]
+        pair["diff_row_shelf"] = [float(x) for x in b[fd].reshape(-1)]
+        pair["prev_row"] = [float(x) for x in a[fd - 1].reshape(-1)] if fd > 0 else None
+    return pair
+
+
+CONST_1D = ("p_vac", "kappa", "Dh_evaporation", "m_water", "k_B", "t_vac_start", "t_vac_duration", "height")
+
+
+def _case_2d(case, conf):
+    c = s2._base(conf, case["height"], case["diameter"], case["K_shelf"], case["t_tot"], outStride=case["outStride"])
+    if conf == "VISF":
+        c["visf"] = dict(t_vac_start=case["t_start"], t_vac_duration=case["t_dur"])
+        for kk in ("kappa", "p_vac"):
+            if case.get(kk) is not None:
+                c["visf"][kk] = case[kk]
+    return c
+
+
+def _run_pair_2d(case):
+    out = {}
+    for conf in ("VISF", "shelf"):
+        r = s2.run_real_full(_case_2d(case, conf))
+        if not r["raise"]:
+            try:
+                r["hours"] = r["time"]
+                r["stats"] = [None if x is None else float(x) for x in r["stats"]]
+                r["const"] = {k_: (v if isinstance(v, str) else float(v)) for k_, v in r["const"].items()
+                              if isinstance(v, (str, int, float, np.floating, np.integer)) and not isinstance(v, bool)}
+            except Exception as e:
+                r = {"raise": core.exc_class(e), "stage": "publish"}
+        r.pop("S", None)
+        out[conf] = r
+    return out
+
+
 def run_impl(case):
-    U = _utils()
     k = case["kind"]
-    if k == "utils":
-        T = np.array(case["T"], dtype=float)
-        obs = {"raise": None,
-               "liquid": [float(x) for x in U.vapour_pressure_liquid(T)],
-               "solid": [float(x) for x in U.vapour_pressure_solid(T)]}
-        fl = []
-        for a in case["flux"]:
-            fl.append(float(U.vapour_flux(*[np.float64(x) for x in a])))
-        obs["flux"] = fl
-        return obs
-    if k == "grid":
-        T = np.array(_grid())
-        pl = U.vapour_pressure_liquid(T)
-        ps = U.vapour_pressure_solid(T)
-        return {"raise": None, "liquid": [float(x) for x in pl], "solid": [float(x) for x in ps],
-                "triple": [float(U.vapour_pressure_liquid(np.float64(273.16))),
-                           float(U.vapour_pressure_solid(np.float64(273.16)))]}
+    if k in ("utils", "grid"):
+        # every exception of the real helpers is an observation (mapped to a Failure by `predicates`)
+        try:
+            U = _utils()
+            if k == "utils":
+                T = np.array(case["T"], dtype=float)
+                obs = {"raise": None,
+                       "liquid": [float(x) for x in U.vapour_pressure_liquid(T)],
+                       "solid": [float(x) for x in U.vapour_pressure_solid(T)]}
+                fl = []
+                for a in case["flux"]:
+                    fl.append(float(U.vapour_flux(*[np.float64(x) for x in a])))
+                obs["flux"] = fl
+                return obs
+            T = np.array(_grid())
+            pl = U.vapour_pressure_liquid(T)
+            ps = U.vapour_pressure_solid(T)
+            return {"raise": None, "liquid": [float(x) for x in pl], "solid": [float(x) for x in ps],
+                    "triple": [float(U.vapour_pressure_liquid(np.float64(273.16))),
+                               float(U.vapour_pressure_solid(np.float64(273.16)))]}
+        except Exception as e:
+            return {"raise": core.exc_class(e), "stage": "utils"}
     if k == "correlation":
         return {"raise": None, "first": {d: _first_call(d) for d in ("spatial_1D", "spatial_2D")}}
-    if k == "window":
-        pair = _run_pair(case)
-        obs = {"raise": None, "runs": {c: pair[c]["raise"] for c in ("VISF", "shelf")}}
-        if "first_run" in pair:
-            obs["first_run"] = pair["first_run"]
+    if k in ("window", "window2d"):
+        pair = _run_pair(case) if k == "window" else _run_pair_2d(case)
         V, Sh = pair["VISF"], pair["shelf"]
-        obs["shelf_calls"] = len(Sh["calls"])
-        # per step: one pressure call (L = liquid curve, S = ice curve), followed by F when the flux is evaluated
-        cs = V["calls"]
-        steps = []
-        for ch in cs:
-            if ch == "F":
-                if steps:
-                    steps[-1] += "F"
-            else:
-                steps.append(ch)
-        n_l = next((i for i, x in enumerate(steps) if x[0] == "S"), len(steps))
-        obs["calls"] = {
-            "n_cool_steps": n_l, "n_solid_steps": len(steps) - n_l,
-            "liquid_after_solid": any(x[0] == "L" for x in steps[n_l:]),
-            "flux_cool": [i for i, x in enumerate(steps[:n_l]) if x.endswith("F")],
-            "flux_solid": [i for i, x in enumerate(steps[n_l:]) if x.endswith("F")],
-        }
-        const = V["S"].const
-        obs["const"] = {kk: float(const[kk]) for kk in ("p_vac", "kappa", "Dh_evaporation", "m_water", "k_B",
-                                                         "t_vac_start", "t_vac_duration", "height", "lambda_solution",
-                                                         "cp_solution", "rho_l", "lambda_i", "cp_i")}
+        obs = {"raise": None, "runs": {c: pair[c]["raise"] for c in ("VISF", "shelf")},
+               "stages": {c: pair[c].get("stage") for c in ("VISF", "shelf")}}
+        if k == "window":
+            for c in ("VISF", "shelf"):
+                S = pair[c].pop("S", None)
+                if S is not None and pair[c]["raise"] is None:
+                    try:
+                        pair[c]["const"] = {kk: (v if isinstance(v, str) else float(v)) for kk, v in S.const.items()
+                                            if isinstance(v, (str, int, float, np.floating, np.integer))
+                                            and not isinstance(v, bool)}
+                    except Exception as e:
+                        pair[c]["raise"], pair[c]["stage"] = core.exc_class(e), "publish"
+                        obs["runs"][c], obs["stages"][c] = pair[c]["raise"], "publish"
         if V["raise"] is None:
-            S = V["S"]
-            t = np.asarray(S.time) * 3600.0
-            temp = np.asarray(S.temp)
-            t_nuc = float(S._nuc[0])
-            # cooling-stage rows: row r holds T after step r (time dt*r); the last cooling row is the
-            # post-nucleation profile (index i_save_end), so use rows strictly before it
-            n_cool = int(np.searchsorted(t, t_nuc - 1e-9))  # rows with time < t_nuc
-            n_use = max(0, min(n_cool - 1, 700))
-            obs["visf"] = {
-                "dt": float(t[1] - t[0]) if len(t) > 1 else None,
-                "t_nuc": t_nuc, "rows": int(temp.shape[0]), "n_cool": n_cool,
-                "top": [float(x) for x in temp[: n_use + 1, -1]],
-                "below": [float(x) for x in temp[: n_use + 1, -2]],
-                "time": [float(x) for x in t[: n_use + 1]],
-                "t_last": float(t[-1]),
-            }
+            obs["const"] = V["const"]
+            obs["visf"] = {kk: V[kk] for kk in ("hours", "temp", "ice", "shelf", "stats")}
+            obs["visf"]["inuc"] = _inuc(V)
+        if Sh["raise"] is None:
+            obs["shelf"] = {kk: Sh[kk] for kk in ("hours", "temp", "ice", "shelf", "stats")}
+            obs["shelf"]["inuc"] = _inuc(Sh)
+            obs["shelf_const"] = Sh["const"]
         if V["raise"] is None and Sh["raise"] is None:
-            a_t, b_t = np.asarray(V["S"].time) * 3600.0, np.asarray(Sh["S"].time) * 3600.0
-            a, b = np.asarray(V["S"].temp), np.asarray(Sh["S"].temp)
-            n = min(len(a_t), len(b_t))
-            same_row = [bool(a_t[i] == b_t[i] and np.array_equal(a[i], b[i])) for i in range(n)]
-            first_diff = next((i for i, s in enumerate(same_row) if not s), None)
-            obs["pair"] = {
-                "len_visf": int(len(a_t)), "len_shelf": int(len(b_t)),
-                "first_diff": first_diff,
-                "first_diff_time": (float(a_t[first_diff]) if first_diff is not None else None),
-                "first_diff_time_shelf": (float(b_t[first_diff]) if first_diff is not None else None),
-                "identical": bool(first_diff is None and len(a_t) == len(b_t)),
-                "ice_identical": bool(np.array_equal(np.asarray(V["S"].iceMassFraction),
-                                                     np.asarray(Sh["S"].iceMassFraction))),
-                "stats_identical": bool(V["S"]._stats == Sh["S"]._stats),
-            }
-            if first_diff is not None:
-                i = first_diff
-                obs["pair"]["diff_row_visf"] = [float(x) for x in a[i]]
-                obs["pair"]["diff_row_shelf"] = [float(x) for x in b[i]]
-                obs["pair"]["prev_top"] = float(a[i - 1, -1]) if i > 0 else None
+            obs["pair"] = _pair_summary(V, Sh)
         return obs
     raise ValueError("unknown case kind " + str(k))
 
@@ -408,25 +450,58 @@ def _default_visf():
     return _DFLT[str(p)]
 
 
-def _stride_one(impl):
-    """every step recorded? (recording stride 1: the row spacing equals the code's time step)"""
-    c = impl["const"]
-    dz = c["height"] / 30
-    dt_code = 0.4 * dz ** 2 / (c["lambda_i"] / (c["cp_i"] * c["rho_l"]))
-    return "visf" in impl and impl["visf"]["dt"] is not None and abs(impl["visf"]["dt"] - dt_code) <= 1e-9 * dt_code
+def _configured(case):
+    """the VISF constants the run MUST use: what the case's YAML file says, else the packaged default (read by the
+    harness itself) - never what the object's `const` returned"""
+    d = _default_visf()
+    out = {kk: float(case[kk]) if case.get(kk) is not None else float(d[kk])
+           for kk in ("p_vac", "kappa", "Dh_evaporation", "m_water")}
+    out["t_vac_start"], out["t_vac_duration"] = float(case["t_start"]), float(case["t_dur"])
+    return out
 
 
-def _window_inputs(case, impl):
-    """inputs of the top-node model, from the returned constants (formulas of snowing.py l.608-631)"""
-    c = impl["const"]
-    dz = c["height"] / 30
-    lam = c["lambda_solution"]
-    diff = lam / (c["cp_solution"] * c["rho_l"])
-    return dz, lam, diff
+def _const_configured(case, const):
+    c = dict(const)
+    c.update(_configured(case))
+    return c
 
 
-def run_model(drv, case):
+def _steps(case, const, run, what):
+    """the code's time step recomputed from the constants (same expression as the loop: Nz = 30, Nr = 15, CFL 0.4)
+    and the check that the recorded rows are exactly one such step apart (all but the two rows of the nucleation
+    instant).  A mismatch means the harness cannot read the rows as `state after step i`: BrokenObservation - the
+    step-wise clauses are never skipped silently."""
+    dt = s2.code_dt(const)
+    t = run["hours"] * 3600.0
+    inuc = run["inuc"]
+    n = len(t)
+    if n < 4 or not (1 <= inuc < n):
+        raise BrokenObservation(f"{what}: {n} published rows, post-nucleation row {inuc}: no step-wise reading possible")
+    d = np.diff(t)
+    want = np.full(n - 1, dt)
+    want[inuc - 1] = 0.0                     # row at nucleation -> post-nucleation row (same instant)
+    if inuc < n - 1:
+        want[inuc] = 0.0                     # post-nucleation row -> first solidification step (label t_nuc + dt*0)
+    bad = np.nonzero(np.abs(d - want) > 1e-9 * np.maximum(dt, t[1:]))[0]
+    if len(bad):
+        j = int(bad[0])
+        raise BrokenObservation(f"{what}: rows {j}->{j + 1} are {d[j]!r} s apart, the loop's step recomputed from the "
+                                f"constants is {want[j]!r} s (recording stride or step formula changed): the rows "
+                                "cannot be read step by step")
+    return dt, t
+
+
+def _top_below(run, two_d):
+    T = run["temp"] + 273.15
+    if two_d:
+        return T[:, 29, 0], T[:, 28, 0]
+    return T[:, -1], T[:, -2]
+
+
+def run_model(drv, case, impl=None):
     k = case["kind"]
+    if k in ("utils", "grid") and impl is not None and impl.get("raise"):
+        return {"raise": None}
     if k == "utils":
         out = {"raise": None, "liquid": _evap(drv, "liquid", case["T"]), "solid": _evap(drv, "solid", case["T"])}
         r = drv.call({"op": "evap", "fn": "flux", "args": [[f2b(x) for x in a] for a in case["flux"]]})
@@ -442,49 +517,65 @@ def run_model(drv, case):
         # hand model EvapWindow.pVap: the cooling stage (liquid product) uses the liquid curve
         return {"raise": None, "first": {"spatial_1D": "liquid"}}
     if k == "window":
-        # the model needs the recorded profile of the real run: computed inside compare()
-        return {"raise": None, "drv": drv}
+        # models never raise in these programmes; a run of the real code that raised is reported by `predicates`
+        if "visf" not in impl:
+            return {"raise": None, "skip": True}
+        const = impl["const"]
+        out = {"raise": None}
+        # (1) the WHOLE run on the executable 1D model (Snow.run1DOld, the model of the C08/C13 theorems and of
+        # visf_run1D_eq_shelf*), with the CONFIGURED VISF constants
+        c1 = dict(dim="1D", k_s0=case["s0"], t_tot=case["t_tot"], start=20, stop=-50, rate=case["rate"], holds=None,
+                  cnTemp=None)
+        rec = {"const": {kk: const[kk] for kk in su.CONST_KEYS + su.CONST_SPATIAL if kk in const},
+               "xi": su.recorded_xi(), "visf": _configured(case)}
+        out["run"] = su.decode_model(drv.call(su.model_request(c1, rec, Frand=su.recorded_frand(0), old=True,
+                                                               row_stride=int(case.get("row_stride", 1)))))
+        # (2) the hand window model (EvapWindow.lean, the model of the q_e theorems), step by step on EVERY cooling row
+        try:
+            out["steps"] = _model_steps(drv, case, impl)
+        except BrokenObservation as e:
+            out["steps"] = {"broken": str(e)}
+        return out
+    if k == "window2d":
+        if "visf" not in impl:
+            return {"raise": None, "skip": True}
+        c2 = _case_2d(case, "VISF")
+        const = _const_configured(case, impl["const"])
+        return {"raise": None, "run": s2.run_model(drv, c2, flags=None, const=const)}
     raise ValueError(k)
 
 
-def _model_steps(drv, case, impl, visf):
+def _model_steps(drv, case, impl):
     v = impl["visf"]
-    c = impl["const"]
-    dz, lam, diff = _window_inputs(case, impl)
-    n = len(v["top"]) - 1
-    if n <= 0:
-        return None
-    req = {"op": "evapWindow", "visf": visf, "stage": "cooling", "t0": f2b(0.0),
+    c = _const_configured(case, impl["const"])
+    dt, t = _steps(case, impl["const"], v, "VISF run")
+    dz = c["height"] / 30
+    lam = c["solid_fraction"] * c["lambda_s"] + (1 - c["solid_fraction"]) * c["lambda_w"]
+    diff = lam / (c["cp_solution"] * c["rho_l"])
+    top, below = _top_below(v, False)
+    n = v["inuc"] - 1                         # rows 0..n are the states after cooling steps 0..n
+    req = {"op": "evapWindow", "visf": True, "stage": "cooling", "t0": f2b(0.0),
            "p_vac": f2b(c["p_vac"]), "kappa": f2b(c["kappa"]), "dHe": f2b(c["Dh_evaporation"]),
            "m_water": f2b(c["m_water"]), "k_B": f2b(c["k_B"]),
-           "t_vac_start": f2b(float(case["t_start"])), "t_vac_duration": f2b(float(case["t_dur"])),
-           "dt": f2b(v["dt"]), "dz": f2b(dz), "lambda_eff": f2b(lam), "diffusivity": f2b(diff),
+           "t_vac_start": f2b(c["t_vac_start"]), "t_vac_duration": f2b(c["t_vac_duration"]),
+           "dt": f2b(dt), "dz": f2b(dz), "lambda_eff": f2b(lam), "diffusivity": f2b(diff),
            # row r is the state BEFORE step r+1
            "i": list(range(1, n + 1)),
-           "T_top": [f2b(x + 273.15) for x in v["top"][:n]],
-           "T_below": [f2b(x + 273.15) for x in v["below"][:n]]}
+           "T_top": [f2b(float(x)) for x in top[:n]],
+           "T_below": [f2b(float(x)) for x in below[:n]]}
     r = drv.call(req)
     if "error" in r:
         raise RuntimeError(r["error"])
-    out = {"inWindow": r["inWindow"], "q_e": [b2f(x) for x in r["q_e"]],
-           "next": [b2f(x) for x in r["T_top_next"]]}
-    # window flags of every step of both stages (the flag does not depend on the temperatures)
-    for stage, t0, nsteps in (("cooling", 0.0, impl["calls"]["n_cool_steps"]),
-                              ("solidification", v["t_nuc"], impl["calls"]["n_solid_steps"])):
-        req2 = dict(req)
-        req2.update({"stage": stage, "t0": f2b(t0), "i": list(range(nsteps)),
-                     "T_top": [f2b(273.15)] * nsteps, "T_below": [f2b(273.15)] * nsteps})
-        r2 = drv.call(req2)
-        if "error" in r2:
-            raise RuntimeError(r2["error"])
-        out["win_" + stage] = [i for i, b in enumerate(r2["inWindow"]) if b]
-    return out
+    return {"inWindow": r["inWindow"], "q_e": [b2f(x) for x in r["q_e"]], "next": [b2f(x) for x in r["T_top_next"]],
+            "dt": dt, "n": n}
 
 
 def compare(case, impl, model):
     dis = []
     k = case["kind"]
     if k in ("utils", "grid"):
+        if impl.get("raise"):
+            return dis          # reported by `predicates` (the helpers are total on these inputs)
         for nm in ("liquid", "solid", "flux", "triple"):
             if nm not in impl:
                 continue
@@ -509,45 +600,72 @@ def compare(case, impl, model):
         return dis
     if k == "window":
         if "visf" not in impl:
-            return dis
-        drv = model.get("drv")
-        ms = _model_steps(drv, case, impl, True)
-        if ms is None:
-            return dis
+            return dis          # the VISF run raised: `predicates` reports it (unexpected raise = Failure)
         v = impl["visf"]
-        c = impl["const"]
-        # guard: the step-by-step tie needs every step recorded (recording stride 1)
-        if not _stride_one(impl):
-            return dis
         lo, hi = _window(case)
-        # which steps evaluate the flux, and which correlation each stage uses (observed calls of the real run)
-        cl = impl["calls"]
-        if cl["liquid_after_solid"]:
-            dis.append("the real run calls the liquid curve after the first call of the ice curve (model: cooling "
-                       "stage = liquid, solidification stage = ice)")
-        if cl["n_cool_steps"] != v["n_cool"] + 1:
-            dis.append(f"cooling stage: {cl['n_cool_steps']} liquid-curve calls vs {v['n_cool'] + 1} cooling steps")
-        for stage, key, t0 in (("cooling", "flux_cool", 0.0), ("solidification", "flux_solid", v["t_nuc"])):
-            got, want = cl[key], ms["win_" + stage]
-            if got != want:
-                bad = sorted(set(got) ^ set(want))
-                t = t0 + v["dt"] * bad[0]
-                if all(min(abs(t0 + v["dt"] * b - lo), abs(t0 + v["dt"] * b - hi)) <= 1e-9 * max(1.0, hi) for b in bad):
-                    dis.append(f"TIE: {stage} step {bad[0]} sits on the window boundary")
+        # (1) whole run, every array, both stages (temp / ice on the rows the model sent back: every row in the
+        # thorough tier, every third row + the last in the quick tier; time / shelf / statistics always in full)
+        m = model["run"]
+        if m["raise"]:
+            dis.append(f"the 1D model raises {m['raise']} ({m.get('stage')}) where the real VISF run completes")
+            return dis
+        for key, val in m["stats"].items():
+            if not close(v["stats"].get(key), val):
+                dis.append(f"results[{key}]: real VISF run {v['stats'].get(key)!r} vs model {val!r}")
+        for nm, x, y in (("time", v["hours"], m["time"]), ("shelfTemp", v["shelf"], m["shelf"])):
+            y = np.asarray(y, float)
+            if x.shape != y.shape:
+                dis.append(f"len({nm}): real VISF run {len(x)} vs model {len(y)}")
+                continue
+            bad = np.nonzero(~(np.abs(x - y) <= 1e-9 * np.maximum(1.0, np.maximum(np.abs(x), np.abs(y)))))[0]
+            if len(bad):
+                dis.append(f"{nm}[{int(bad[0])}]: real VISF run {float(x[bad[0]])!r} vs model {float(y[bad[0]])!r}")
+        rows = m["rows"]
+        for nm, x, y in (("temp", v["temp"], m["temp"]), ("iceMassFraction", v["ice"], m["ice"])):
+            y = np.asarray(y, float)
+            if len(x) != m["nrows"] or (len(rows) and x[rows].shape != y.shape):
+                dis.append(f"shape({nm}): real VISF run {x.shape} vs model {m['nrows']} rows of {y.shape[1:]}")
+                continue
+            xa = x[rows]
+            err = ~(np.abs(xa - y) <= 1e-9 * np.maximum(1.0, np.maximum(np.abs(xa), np.abs(y))))
+            bad = np.argwhere(err)
+            if len(bad):
+                r, j = int(bad[0][0]), int(bad[0][1])
+                g = rows[r]
+                t = float(v["hours"][g]) * 3600
+                stage = "cooling" if g < v["inuc"] else "solidification"
+                if min(abs(t - lo), abs(t - hi)) <= 1e-9 * max(1.0, abs(t)):
+                    dis.append(f"TIE: row {g} sits on the window boundary")
                 else:
-                    dis.append(f"{stage} stage: the real run evaluates the flux at {len(got)} steps, the model's window "
-                               f"holds at {len(want)}; first difference at step {bad[0]} (t={t:.3f}s, window {lo:.1f}-{hi:.1f}s)")
+                    dis.append(f"{nm}[row {g}, node {j}] ({stage} stage, t={t:.3f}s, configured window {lo:.1f}-{hi:.1f}s): "
+                               f"real VISF run {float(xa[r, j])!r} vs model {float(y[r, j])!r} ({len(bad)} entries differ)")
+        # (2) the hand window model, step by step, top node, every cooling row
+        ms = model["steps"]
+        if "broken" in ms:
+            dis.append("broken observation: " + ms["broken"])
+            return dis
+        top, _ = _top_below(v, False)
         for j, (pred, flag) in enumerate(zip(ms["next"], ms["inWindow"])):
-            got = v["top"][j + 1] + 273.15
+            got = float(top[j + 1])
             if not (abs(pred - got) <= 1e-9 * max(1.0, abs(got))):
-                t = v["dt"] * (j + 1)
+                t = ms["dt"] * (j + 1)
                 if min(abs(t - lo), abs(t - hi)) <= 1e-9 * max(1.0, abs(t)):
                     dis.append(f"TIE: step {j+1} sits on the window boundary")
                     continue
-                dis.append(f"top node after step {j+1} (t={t:.3f}s, window {lo:.1f}-{hi:.1f}s, model inWindow={flag}): "
-                           f"real run {got!r} vs model {pred!r}")
+                dis.append(f"top node after step {j+1} (t={t:.3f}s, window {lo:.1f}-{hi:.1f}s, window model inWindow={flag}): "
+                           f"real run {got!r} vs window model {pred!r}")
                 break
         return dis
+    if k == "window2d":
+        if "visf" not in impl:
+            return dis
+        v = impl["visf"]
+        n = len(v["hours"])
+        rows = s2.keep_rows(n, min(v["inuc"], n - 1), int(case["outStride"]))
+        obs = {"raise": None, "stats": v["stats"], "n": n, "time": v["hours"].tolist(), "shelf": v["shelf"].tolist(),
+               "iSaveEnd": min(v["inuc"], n - 1), "rows": rows,
+               "temp": [v["temp"][r].reshape(-1) for r in rows], "ice": [v["ice"][r].reshape(-1) for r in rows]}
+        return s2.compare_runs(obs, model["run"], what="2D VISF run")
     return dis
 
 
@@ -557,6 +675,10 @@ def compare(case, impl, model):
 def predicates(case, impl):
     out = []
     k = case["kind"]
+    if k in ("utils", "grid") and impl.get("raise"):
+        return [Failure(clause="unexpected_raise", key=f"unexpected_raise|utils|{impl['raise']}",
+                        detail=f"vapour_pressure_liquid / vapour_pressure_solid / vapour_flux raise {impl['raise']} on "
+                               f"finite positive inputs")]
     if k == "utils":
         U = _utils()
         for a, f in zip(case["flux"], impl["flux"]):
@@ -622,67 +744,109 @@ def predicates(case, impl):
                                        detail=f"{nm}: not increasing between {T[i]:.2f} and {T[i+1]:.2f} K"))
                     break
         return out
-    if k == "window":
+    if k in ("window", "window2d"):
+        site = "_run_1D" if k == "window" else "_run_2D"
+        two_d = k == "window2d"
+        # these programmes nucleate and solidify within t_tot on the unchanged code, in both configurations: a run (or
+        # constructor, or accessor) that raises is a failure of the real code, not a reason to say nothing
+        for conf in ("VISF", "shelf"):
+            if impl["runs"][conf]:
+                out.append(Failure(clause="unexpected_raise", key=f"unexpected_raise|{site}|{conf}:{impl['runs'][conf]}",
+                                   detail=f"the {conf} run raises {impl['runs'][conf]} (stage {impl['stages'][conf]}) "
+                                          f"for a programme that completes on the unchanged code"))
+        if "visf" not in impl:
+            return out
+        c = impl["const"]
+        lo, hi = _window(case)
+        want_c = _configured(case)
+        for key in ("t_vac_start", "t_vac_duration", "kappa", "p_vac", "Dh_evaporation", "m_water"):
+            if c.get(key) != want_c[key]:
+                src_ = ("the configuration file" if key.startswith("t_vac") or case.get(key) is not None
+                        else "the packaged default")
+                out.append(Failure(clause="window_as_configured", key=f"window_as_configured|calculateDerived|{key}",
+                                   detail=f"{key}: {src_} says {want_c[key]!r} but the run uses {c.get(key)!r}"))
+        # --- EFFECTS, step by step, both stages: the heat flux the run actually applied at the top (centre) node,
+        # inferred from every pair of consecutive published rows by inverting the update of that node
+        # (snowing2dutil._top_flux), against the CONFIGURED boundary condition: -N_w*dHe (liquid curve before, ice curve
+        # after nucleation) at steps whose time label lies strictly inside the configured window, ZERO at all others.
+        # The row with time label t is the state AFTER the step that evaluated the window test at t, so every step is
+        # judged at its own time: a flux one step early or late, or a stale flux after the window, shows here.
+        v = impl["visf"]
+        dt, t = _steps(case, c, v, "VISF run")
+        cc = _const_configured(case, c)
+        res = {"const": cc, "temp": v["temp"], "ice": v["ice"], "time": v["hours"]}
+        tf = s2._top_flux(None, res, dt, v["inuc"])
+        n_tr = len(t) - 2
+        if not tf or tf.get("n", 0) < n_tr:
+            raise BrokenObservation(f"top-flux inference reads {tf.get('n') if tf else None} of {n_tr} row transitions")
+        if "shelf" in impl:
+            sh = impl["shelf"]
+            dts, _ = _steps(case, impl["shelf_const"], sh, "shelf run")
+            tfs = s2._top_flux(None, {"const": impl["shelf_const"], "temp": sh["temp"], "ice": sh["ice"],
+                                      "time": sh["hours"]}, dts, sh["inuc"])
+            if not tfs or tfs.get("n", 0) < len(sh["hours"]) - 2 or tfs["score"] > 1:
+                # calibration of the inference on the run that has no evaporation at all
+                raise BrokenObservation(f"top-flux inference does not give zero on the shelf run: {tfs}")
+        if tf["score"] > 1:
+            g = tf["row"]
+            tt = float(t[g])
+            where = f"{tf['stage']} stage, row {g}, t={tt:.3f}s, configured window ({lo:.3f},{hi:.3f})s"
+            on_edge = min(abs(tt - lo), abs(tt - hi)) <= 1e-9 * max(1.0, abs(tt))
+            if on_edge:
+                pass        # the float comparison dt*i > lo is ambiguous exactly on the boundary
+            elif tf["q_expected"] == 0:
+                out.append(Failure(clause="no_evap_outside_window", key=f"no_evap_outside_window|{site}|{tf['stage']}",
+                                   detail=f"a top heat flux of {tf['q_applied']:.6g} W/m2 is applied outside the window ({where})"))
+            elif tf["q_applied"] == 0 or abs(tf["q_applied"]) <= 1e-2:
+                out.append(Failure(clause="qE_eq", key=f"qE_eq|{site}|missing:{tf['stage']}",
+                                   detail=f"no evaporative flux applied inside the window, expected {tf['q_expected']:.6g} W/m2 ({where})"))
+            elif (tf["q_applied"] < 0) != (tf["q_expected"] < 0):
+                out.append(Failure(clause="evap_cools_iff", key=f"evap_cools_iff|{site}|{tf['stage']}",
+                                   detail=f"applied flux {tf['q_applied']:.6g} W/m2 has the wrong sign, expected {tf['q_expected']:.6g} ({where})"))
+            else:
+                out.append(Failure(clause="qE_eq", key=f"qE_eq|{site}|value:{tf['stage']}",
+                                   detail=f"applied flux {tf['q_applied']:.6g} W/m2 vs -N_w*dHe = {tf['q_expected']:.6g} "
+                                          f"(T_top {tf['T_top']:.4f} K; {where})"))
         if "pair" not in impl:
             return out
         p = impl["pair"]
-        c = impl["const"]
-        lo, hi = _window(case)
-        for key, want in (("t_vac_start", float(case["t_start"])), ("t_vac_duration", float(case["t_dur"]))):
-            if c[key] != want:
-                out.append(Failure(clause="window_as_configured", key=f"window_as_configured|calculateDerived|{key}",
-                                   detail=f"configured {key} = {want!r} but the run uses {c[key]!r}"))
-        dflt = _default_visf()
-        for key, ckey in (("kappa", "kappa"), ("p_vac", "p_vac"), ("Dh_evaporation", "Dh_evaporation"),
-                          ("m_water", "m_water")):
-            want = float(case[key]) if case.get(key) is not None else float(dflt[key])
-            if c[ckey] != want:
-                src_ = "the configuration file" if case.get(key) is not None else "the packaged default"
-                out.append(Failure(clause="window_as_configured", key=f"window_as_configured|calculateDerived|{key}",
-                                   detail=f"{key}: {src_} says {want!r} but the run uses {c[ckey]!r}"))
-        if impl.get("shelf_calls"):
-            out.append(Failure(clause="no_evap_outside_window", key="no_evap_outside_window|_run_1D|shelf",
-                               detail=f"a shelf run called the evaporation helpers {impl['shelf_calls']} times"))
-        # the flux is evaluated only at steps whose time lies strictly inside the window
-        dtv, tn = impl["visf"]["dt"], impl["visf"]["t_nuc"]
-        for key, t0 in (("flux_cool", 0.0), ("flux_solid", tn)):
-            for i in (impl["calls"][key] if _stride_one(impl) else []):
-                t = t0 + dtv * i
-                if not (lo * (1 - 1e-9) < t < hi * (1 + 1e-9)):
-                    out.append(Failure(clause="no_evap_outside_window", key=f"no_evap_outside_window|_run_1D|{key}",
-                                       detail=f"flux evaluated at t={t:.3f}s outside the window ({lo:.3f},{hi:.3f})s"))
-                    break
-        t_last = impl["visf"]["t_last"]
+        # --- run against run: identical rows up to the window; identical runs when the window never opens
+        t_last = float(t[-1])
         never = not (hi > lo) or lo >= max(t_last, case["t_tot"]) * (1 + 1e-9)
         if never:
             if not (p["identical"] and p["ice_identical"] and p["stats_identical"]):
-                out.append(Failure(clause="visf_eq_shelf_outside_window", key="visf_eq_shelf_outside_window|_run_1D|never-open",
+                out.append(Failure(clause="visf_eq_shelf_outside_window", key=f"visf_eq_shelf_outside_window|{site}|never-open",
                                    detail=f"window ({lo:.1f},{hi:.1f}) s never opens but VISF and shelf runs differ "
                                           f"(first differing row {p['first_diff']})"))
         else:
             fd = p["first_diff"]
-            if fd is not None:
+            if fd is None and p["len_visf"] != p["len_shelf"]:
+                fd = min(p["len_visf"], p["len_shelf"])
+            if fd is not None and p["first_diff_time"] is not None:
+                # (the first row that may differ is the one whose OWN time label is inside the window: it is the state
+                # after the step that tested that time; a row labelled t <= lo differing = evaporation too early.  The
+                # relative 1e-9 only excuses a label that equals lo up to rounding of hours*3600.)
                 tdiff = p["first_diff_time"]
                 if p["first_diff_time_shelf"] != tdiff and min(tdiff, p["first_diff_time_shelf"]) <= lo * (1 - 1e-9):
-                    out.append(Failure(clause="visf_eq_shelf_before_window", key="visf_eq_shelf_before_window|_run_1D|time",
+                    out.append(Failure(clause="visf_eq_shelf_before_window", key=f"visf_eq_shelf_before_window|{site}|time",
                                        detail=f"time axes differ at row {fd} before the window opens"))
                 elif tdiff <= lo * (1 - 1e-9):
-                    out.append(Failure(clause="visf_eq_shelf_before_window", key="visf_eq_shelf_before_window|_run_1D|",
+                    out.append(Failure(clause="visf_eq_shelf_before_window", key=f"visf_eq_shelf_before_window|{site}|",
                                        detail=f"VISF and shelf runs differ at t={tdiff:.3f}s, before the window opens at {lo:.3f}s"))
-                elif "diff_row_visf" in p and p["first_diff_time_shelf"] == tdiff and tdiff < impl["visf"]["t_nuc"]:
+                elif not two_d and "diff_row_visf" in p and p["first_diff_time_shelf"] == tdiff and fd < v["inuc"]:
                     a, b = p["diff_row_visf"], p["diff_row_shelf"]
                     if a[:-1] != b[:-1]:
                         out.append(Failure(clause="evap_cools_top_only", key="evap_cools_top_only|_run_1D|",
                                            detail=f"first affected step changes nodes below the top: row {fd}"))
                     # sign: cooler iff p_vap(liquid, previous top) >= p_vac
-                    if p["prev_top"] is not None:
+                    if p.get("prev_row"):
                         U = _utils()
-                        pv = float(U.vapour_pressure_liquid(np.float64(p["prev_top"] + 273.15)))
-                        if abs(pv - c["p_vac"]) > 1e-6 * c["p_vac"]:
+                        pv = float(U.vapour_pressure_liquid(np.float64(p["prev_row"][-1] + 273.15)))
+                        if abs(pv - want_c["p_vac"]) > 1e-6 * want_c["p_vac"]:
                             cooler = a[-1] < b[-1]
-                            if cooler != (pv > c["p_vac"]):
+                            if cooler != (pv > want_c["p_vac"]):
                                 out.append(Failure(clause="evap_cools_iff", key="evap_cools_iff|_run_1D|",
-                                                   detail=f"p_vap={pv:.3f}, p_vac={c['p_vac']}: VISF top {a[-1]!r} vs shelf top {b[-1]!r}"))
+                                                   detail=f"p_vap={pv:.3f}, p_vac={want_c['p_vac']}: VISF top {a[-1]!r} vs shelf top {b[-1]!r}"))
         return out
     return out
 
@@ -694,12 +858,13 @@ def classify(case, impl):
             tags.append(f"first-cooling-step({d})-calls={n}")
         if impl["first"].get("spatial_2D") == "solid":
             tags.append("F11-observed: 2D cooling stage uses the ice curve for a liquid surface (not a C20 clause; see C15)")
-    if case["kind"] == "window":
+    if case["kind"] in ("window", "window2d"):
         tags.append("runs=" + "/".join(str(impl["runs"][c]) for c in ("VISF", "shelf")))
         if "pair" in impl and "visf" in impl:
-            c = impl["const"]
             lo, hi = _window(case)
-            tn, tl = impl["visf"]["t_nuc"], impl["visf"]["t_last"]
+            v = impl["visf"]
+            t = v["hours"] * 3600.0
+            tn, tl = float(t[min(v["inuc"], len(t) - 1)]), float(t[-1])
             if not hi > lo:
                 tags.append("window=empty")
             elif lo >= tl:
@@ -715,7 +880,7 @@ def classify(case, impl):
 
 
 def nontrivial(case, impl):
-    if case["kind"] == "window":
+    if case["kind"] in ("window", "window2d"):
         return "pair" in impl
     return True
 
@@ -824,8 +989,32 @@ def _cross_object_case(rng, k):
     return b
 
 
+def _window2d_case(rng, k=0):
+    """a small 2D VISF run end to end (squat wide vial: a few thousand steps, every step recorded) with the window
+    straddling nucleation (k even) or inside the cooling stage (k odd)"""
+    case = dict(kind="window2d", height=0.01, diameter=0.04, K_shelf=1000, t_tot=200, outStride=40)
+    if k % 2 == 0:
+        case.update(t_start=rng.uniform(10, 30) / 3600, t_dur=rng.uniform(80, 120) / 3600, cls="2D:straddle")
+    else:
+        case.update(t_start=rng.uniform(5, 20) / 3600, t_dur=rng.uniform(5, 15) / 3600, cls="2D:early")
+    if rng.random() < 0.5:
+        case["kappa"] = rng.choice([0.005, 0.02])
+    return case
+
+
 def cases(rng, tier):
     n_utils, n_win = (24, 10) if tier == "quick" else (400, 120)
+    # (the 2D pair first: it is the longest single case, the pool then overlaps it with everything else)
+    for k in range(1 if tier == "quick" else 6):
+        yield _window2d_case(rng, k + core.env_seed())
+    for c in _cases_rest(rng, tier, n_utils, n_win):
+        if c["kind"] == "window":
+            # rows of temp / ice the whole-run model sends back: all in the thorough tier, every third in quick
+            c["row_stride"] = 3 if tier == "quick" else 1
+        yield c
+
+
+def _cases_rest(rng, tier, n_utils, n_win):
     yield dict(kind="grid")
     yield dict(kind="correlation")
     for _ in range(n_utils):
